@@ -1,0 +1,45 @@
+//go:build verif
+
+package csr
+
+// Contracts for the verification framework in /verif (comment-only file,
+// compiled only with -tags verif; see /verif/DESIGN.md).
+
+//@ import message "github.com/theparanoids/ysshra/message"
+//@ import transid "github.com/theparanoids/ysshra/csr/transid"
+//@ import version "github.com/theparanoids/ysshra/sshutils/version"
+
+//@ # ---------------------------------------------------------------- C14: request parameters
+//@ func (*ReqParam).Validate(p)
+//@   ensures result == nil <==> p != nil
+
+//@ func parseForceCommand(osArgs)
+//@   flag logged
+//@   ensures [policy-is-defined] err == nil ==> (result0 == "NONS" || result0 == "NSOK")
+//@   ensures err != nil ==> (result0 == "" && result1 == "")
+//@   loop 1:
+//@     invariant args == nil || fresh(arr(args))
+
+//@ func NewReqParam(envGetter, osArgsGetter)
+//@   flag purecallbacks
+//@   requires envGetter != nil && osArgsGetter != nil
+//@   let m0 = old(calls(message.Unmarshal))
+//@   let g0 = old(calls(transid.Generate))
+//@   let f0 = old(calls(parseForceCommand))
+//@   let v0 = old(calls(version.Unmarshal))
+//@   ensures err != nil ==> result0 == nil
+//@   ensures [attributes-from-the-original-command] err == nil ==> (result0 != nil && fresh(result0) && calls(message.Unmarshal) == m0 + 1 &&
+//@     arg(message.Unmarshal, m0, 0) == apply(envGetter, "SSH_ORIGINAL_COMMAND") && ret(message.Unmarshal, m0, 1) == nil &&
+//@     result0.Attrs == ret(message.Unmarshal, m0, 0) && result0.Attrs != nil)
+//@   ensures [login-name-from-the-server-environment] err == nil ==> (result0.LogName == apply(envGetter, "LOGNAME") && result0.LogName != "")
+//@   ensures [client-ip-is-the-first-connection-field] err == nil ==> (result0.ClientIP == splitFirst(apply(envGetter, "SSH_CONNECTION"), " ") && ipOK(result0.ClientIP))
+//@   ensures [policy-and-handler-from-the-forced-command] err == nil ==> (calls(parseForceCommand) == f0 + 1 && ret(parseForceCommand, f0, 2) == nil &&
+//@     arg(parseForceCommand, f0, 0) == apply(osArgsGetter) &&
+//@     result0.NamespacePolicy == ret(parseForceCommand, f0, 0) && result0.HandlerName == ret(parseForceCommand, f0, 1) &&
+//@     (result0.NamespacePolicy == "NONS" || result0.NamespacePolicy == "NSOK"))
+//@   ensures [client-claims-kept-apart] err == nil ==> (result0.ReqUser == result0.Attrs.Username && result0.ReqHost == result0.Attrs.Hostname &&
+//@     result0.SignatureAlgo == result0.Attrs.SignatureAlgo)
+//@   ensures [fresh-transaction-id] err == nil ==> (calls(transid.Generate) == g0 + 1 && result0.TransID == ret(transid.Generate, g0, 0))
+//@   ensures [declared-version-or-0.0] err == nil ==> ((result0.Attrs.SSHClientVersion == "" ==> (result0.SSHClientVersion.major == 0 && result0.SSHClientVersion.minor == 0 && calls(version.Unmarshal) == v0)) &&
+//@     (result0.Attrs.SSHClientVersion != "" ==> (calls(version.Unmarshal) == v0 + 1 && arg(version.Unmarshal, v0, 0) == result0.Attrs.SSHClientVersion &&
+//@       ret(version.Unmarshal, v0, 1) == nil && result0.SSHClientVersion == ret(version.Unmarshal, v0, 0))))
